@@ -26,6 +26,7 @@ CONSTANTS
   TbVals = {}
   TickVals = {}
   Targets = {"A"}
+  SubTargets = {"A"}
   AutoVals = {TRUE, FALSE}
   SubOneshot = {FALSE}
   Senders = {"B"}
